@@ -1,79 +1,18 @@
 /-
-  C14 — open findings on the unchanged tree: the negations of the FULL statements of Props/C14.lean,
-  each from a concrete witness that the harness replays on the implementation
-  (harness/cmd/vharness/c14.go, corpus lists).
+  C14 — open finding on the current tree: the negation of the one FULL statement of Props/C14.lean
+  that does not hold, from a concrete witness that the harness replays on the implementation
+  (harness/cmd/vharness/c14v.go, corpus list).  The former findings `glob:subject-contains-star`,
+  `validate:resource-prefix-of-other-bucket` and `validate:map-order-dependent` were repaired in
+  /repo (4562263, ade9d47); their witnesses are now regression examples in Props/C14.lean.
 -/
 import Vgw.Props.C14
 namespace Vgw.Open.C14
-open Vgw Vgw.Model.Policy Vgw.Spec.Policy Vgw.Spec.Glob Vgw.Props.C14 Vgw.Lemmas.Validate
-
-/-! ### `glob:subject-contains-star` — pattern `*`, subject `*a` -/
-
-theorem witness_match : Model.Glob.match [42] [42, 97] = false := by
-  simp [Model.Glob.match, Model.Glob.loop, Model.Glob.star, Model.Glob.qmark]
-
-theorem witness_glob : G [42] [42, 97] = true := by
-  simp [G, star]
-
-theorem match_iff_glob_full_false : ¬ match_iff_glob_full := by
-  intro h
-  have := h [42] [42, 97]
-  rw [witness_match, witness_glob] at this
-  cases this
-
-/-! ### the same class at the level of the decision: a Deny on `b/*` does not apply to the key `*x`
-
-policy: Allow * s3:GetObject b/?x ; Deny * s3:GetObject b/* — request alice, s3:GetObject, b/*x -/
-
-def getObject : Bytes := [115, 51, 58, 71, 101, 116, 79, 98, 106, 101, 99, 116]
-def alice : Bytes := [97, 108, 105, 99, 101]
-def stAllow : Stmt := ⟨allowLit, [starLit], [getObject], [[98, 47, 63, 120]]⟩
-def stDeny : Stmt := ⟨denyLit, [starLit], [getObject], [[98, 47, 42]]⟩
-def witnessPolicy : Policy := [stAllow, stDeny]
-def witnessResource : Bytes := [98, 47, 42, 120]
-
-theorem witness_allowed : isAllowed witnessPolicy alice getObject witnessResource = true := by
-  have m1 : Model.Glob.match [98, 47, 63, 120] [98, 47, 42, 120] = true := by
-    simp [Model.Glob.match, Model.Glob.loop, Model.Glob.skipStars, Model.Glob.star, Model.Glob.qmark]
-  have m2 : Model.Glob.match [98, 47, 42] [98, 47, 42, 120] = false := by
-    simp [Model.Glob.match, Model.Glob.loop, Model.Glob.star, Model.Glob.qmark]
-  simp [isAllowed, isAllowedLoop, witnessPolicy, stAllow, stDeny, stmtFindMatch, principalsContains,
-    actionsFindMatch, resourcesFindMatch, witnessResource, m1, m2, starLit, allowLit, denyLit,
-    getObject, allActions, alice]
-
-theorem witness_denied : ¬ Allows witnessPolicy alice getObject witnessResource := by
-  intro h
-  apply h.2
-  refine ⟨stDeny, by simp [witnessPolicy], rfl, ?_, ?_, ?_⟩
-  · left; simp [stDeny]
-  · right; left; simp [stDeny]
-  · refine ⟨[98, 47, 42], by simp [stDeny], ?_⟩
-    simp [G, star, witnessResource]
-
-theorem isAllowed_iff_full_false : ¬ isAllowed_iff_full := by
-  intro h
-  exact witness_denied ((h witnessPolicy alice getObject witnessResource).1 witness_allowed)
-
-/-! ### validation: one witness per excluded class (bucket `bucket`, no accounts) -/
+open Vgw Vgw.Model.Policy Vgw.Spec.Policy Vgw.Props.C14 Vgw.Lemmas.Validate
 
 def bucket : Bytes := [98, 117, 99, 107, 101, 116]
 def noAcct : Bytes → Bool := fun _ => false
 
 theorem bucket_sane : Sane bucket := by decide
-
-/-- `validate:resource-prefix-of-other-bucket` — Resource `arn:aws:s3:::bucket2/*` -/
-def docPrefix : RawDoc := .stmts [⟨.str allowLit, .str starLit, .str getObject,
-    .str (arnPrefix ++ [98, 117, 99, 107, 101, 116, 50, 47, 42])⟩]
-
-theorem witness_prefix_accepted : validateDocument id bucket noAcct docPrefix = .ok () := by rfl
-theorem witness_prefix_illformed : ¬ WellFormed .lenient bucket noAcct docPrefix := by decide
-theorem witness_prefix_class : ¬ DocHyp (StmtNoForeignPrefix bucket) docPrefix := by decide
-
-theorem validate_iff_wellformed_full_false : ¬ validate_iff_wellformed_full := by
-  intro h
-  have := (h id bucket noAcct docPrefix bucket_sane rfl (fun l => List.Perm.refl l)).2
-    witness_prefix_illformed
-  exact this witness_prefix_accepted
 
 /-- `validate:missing-field` — `{"Statement":[{"Effect":"Allow"}]}` -/
 def docMissing : RawDoc := .stmts [⟨.str allowLit, .missing, .missing, .missing⟩]
@@ -82,22 +21,16 @@ theorem witness_missing_accepted : validateDocument id bucket noAcct docMissing 
 theorem witness_missing_illformed : ¬ WellFormed .lenient bucket noAcct docMissing := by decide
 theorem witness_missing_class : ¬ DocHyp StmtNoMissing docMissing := by decide
 
-/-- `validate:map-order-dependent` — Action `["s3:*","s3:GetObject"]`, Resource `arn:aws:s3:::bucket`:
-accepted when the map yields `s3:*` first, refused when it yields `s3:GetObject` first. -/
-def docOrder : RawDoc := .stmts [⟨.str allowLit, .str starLit, .arr [allActions, getObject],
-    .str (arnPrefix ++ bucket)⟩]
+/-- a second shape of the class: Principal and `Action: "s3:*"` present, Resource absent -/
+def docNoResource : RawDoc := .stmts [⟨.str allowLit, .str starLit, .str allActions, .missing⟩]
 
-theorem witness_order_accepted : validateDocument allFirst bucket noAcct docOrder = .ok () := by rfl
-theorem witness_order_refused :
-    validateDocument allLast bucket noAcct docOrder = .error .resourceMismatch := by rfl
-theorem witness_order_illformed : ¬ WellFormed .lenient bucket noAcct docOrder := by decide
-theorem witness_order_class : ¬ DocHyp (StmtOrderIndependent bucket) docOrder := by decide
+theorem witness_noresource_accepted : validateDocument id bucket noAcct docNoResource = .ok () := by rfl
+theorem witness_noresource_illformed : ¬ WellFormed .lenient bucket noAcct docNoResource := by decide
 
-/-- each of the three hypotheses of `validate_iff_wellformed_partial` is needed: dropping it
-alone already breaks the statement (the other two hold of the witness) -/
-theorem witness_hyps :
-    (DocHyp StmtNoMissing docPrefix ∧ DocHyp (StmtOrderIndependent bucket) docPrefix) ∧
-    (DocHyp (StmtNoForeignPrefix bucket) docMissing ∧ DocHyp (StmtOrderIndependent bucket) docMissing) ∧
-    (DocHyp StmtNoMissing docOrder ∧ DocHyp (StmtNoForeignPrefix bucket) docOrder) := by decide
+theorem validate_iff_wellformed_full_false : ¬ validate_iff_wellformed_full := by
+  intro h
+  have := (h id bucket noAcct docMissing bucket_sane rfl (fun l => List.Perm.refl l)).2
+    witness_missing_illformed
+  exact this witness_missing_accepted
 
 end Vgw.Open.C14
